@@ -54,9 +54,23 @@ fn gen_sequences(tier: &str, seed: u64, out: &mut dyn FnMut(Value)) {
                 m.push(json!([s, l]));
             }
         }
-        let r = SRule { name: "r".into(), match_on: Some(json!(m)), ..Default::default() };
+        // every other rule reads a field that some events lack: a scan that ends in an error must leave the admission of
+        // later events of the same kind as it was
+        let errs = rng.chance(1, 2);
+        let r = SRule {
+            name: "r".into(),
+            match_on: Some(json!(m)),
+            ops: if errs { vec![("$a".into(), crate::dsl::Operand::Test { segs: vec!["x".into()], op: 0, lit: crate::dsl::Lit::sq("1") })] } else { vec![] },
+            cond: if errs { Some(crate::dsl::Form::V("$a".into())) } else { None },
+            ..Default::default()
+        };
         let len = 4 + rng.below(10);
-        let events: Vec<Value> = (0..len).map(|_| json!({"source": *rng.pick(&srcs), "id": *rng.pick(&ids), "fields": []})).collect();
+        let events: Vec<Value> = (0..len)
+            .map(|_| {
+                let fields = if errs && rng.chance(1, 2) { json!([[["x"], {"s": *rng.pick(&["1", "0"])}]]) } else { json!([]) };
+                json!({"source": *rng.pick(&srcs), "id": *rng.pick(&ids), "fields": fields})
+            })
+            .collect();
         out(json!({"op": "scenario", "rules": [r.to_json(&mut rng)], "events": events, "tag": "sequences on one engine", "nt": true}));
     }
 }
